@@ -7,6 +7,7 @@ CONSTANTS
   ReadEdits = FALSE
   FirstWriteKeeps = TRUE
   HookEditsOld = FALSE
+  LendsOld = FALSE
   InitKinds = {"absent", "present"}
   NCases = 0
   MinOps = 1
